@@ -665,12 +665,13 @@ class OPENQASMVisitor(Visitor):
 
         if qlist.data == 'idlist':
             # List of ids, e.g. q, r, but without indices
-            ids = []
+            ids: list[str] = []
             tree_iter = qlist
             while len(tree_iter.children) == 2:
-                ids.append(str(tree_iter.children[0]))
-                tree_iter = tree_iter.children[1]
-            ids.append(str(tree_iter.children[0]))
+                # idlist is left-recursive: idlist "," ID
+                ids.insert(0, str(tree_iter.children[1]))
+                tree_iter = tree_iter.children[0]
+            ids.insert(0, str(tree_iter.children[0]))
 
             out_idxs = []
             for qubit_id in ids:
